@@ -138,6 +138,13 @@ func (m *monC04) Event(ev *hermes.VerifEvent, rc *RunCtx) {
 				chk(name, g.TEMP[idx], want)
 			}
 		}
+		if sc.Weather.HasSun && d.NoneSun && d.NoneSunGap {
+			// a gap of several days: there is no adjacent value; the sentinel itself must never be consumed as a measurement
+			rc.Cov("sunshine_gap_days_checked", 1)
+			if v := g.SUND[idx]; v < 0 || v > 24 || closeTo(v, sc.Weather.NoneValue) {
+				rc.Violate("C04", faultSig(sc, "wrong_record:sunshine_sentinel_consumed"), fmt.Sprintf("day %s: the sunshine duration is missing for several days in a row; the value in use is %.10g (the missing-value marker is %s): a marker is consumed as a measurement", date, v, sc.noneStr()), z, 0, nil)
+			}
+		}
 		if sc.Weather.HasSun {
 			want, sentinel, ok := m.optional(sc, z, func(w *WeatherDay) (float64, bool) { return w.Sun, w.NoneSun })
 			if ok {
